@@ -14,6 +14,19 @@ def corpus():
     return mods
 
 
+# character string literals whose blanks are content (the tokenizer splits them; the model rebuilds the blanks from columns)
+WIDE_MODULE = """Relay DEFINITIONS AUTOMATIC TAGS ::= BEGIN
+    greeting UTF8String ::= "hello wide  world"
+    S ::= SEQUENCE {
+        a UTF8String DEFAULT "a b  c",
+        b IA5String DEFAULT "x y",
+        c INTEGER (0..255) DEFAULT 7,
+        d UTF8String DEFAULT " lead and trail "
+    }
+END
+"""
+
+
 def run(v):
     quick = v.tier == "quick"
     d = outdir("C13")
@@ -49,7 +62,7 @@ def run(v):
     # ---- module level: layout plans drawn by TLC's simulation of the printer machine, applied to real modules ----
     nplans = 12 if quick else 200
     pr = os.path.join(d, "plans.ndjson")
-    tp = run_tlc("C13", "Relayout", "SPECIFICATION Spec\nCONSTANTS\n  D = 97\nINVARIANT Emit\nCHECK_DEADLOCK FALSE\n", tag="plans", workers=1,
+    tp = run_tlc("C13", "Relayout", "SPECIFICATION Spec\nCONSTANTS\n  D = 97\n  W = 2\nINVARIANT Emit\nCHECK_DEADLOCK FALSE\n", tag="plans", workers=1,
                  simulate="num=%d" % nplans, replay_to=pr, coverage=False, heap="2g", extra=["-depth", "98", "-seed", str(v.seed)])
     plans = []
     seen = set()
@@ -58,10 +71,14 @@ def run(v):
         if pl[:-1] not in seen:          # one plan per simulated behaviour
             seen.add(pl[:-1])
             plans.append(list(pl))
+    # the wide separators (8, 9) are heavy: only the first 12 drawn plans keep them
+    plans = [pl if i < 12 else [{8: 1, 9: 6}.get(x, x) for x in pl] for i, pl in enumerate(plans)]
     plans += [[0], [1], [2], [3], [4], [5], [6], [7]]        # the uniform layouts
+    # and the wide separators at every 23rd boundary, the rest of the module on one line / on short lines
+    plans += [[8] + [1] * 22, [9] + [1] * 22, [1] * 11 + [8] + [4] + [1] * 10, [9, 0, 2] + [6] * 20]
     if len(plans) < nplans:
         raise ToolError("TLC simulation produced only %d plans" % len(plans))
-    mods = corpus()
+    mods = corpus() + [WIDE_MODULE]
     zq = os.path.join(vlib.OUT, "zoo_quick", "zoo.asn1")
     if os.path.exists(zq):
         mods.append(open(zq).read())
@@ -90,8 +107,8 @@ def run(v):
                      "Tokenizer::parse) = LexSpec (functional X.680 clause 12 definition) incl. line/column, and relayout invariance; the "
                      "real Tokenizer must return exactly these tokens and locations (unterminated comments: only the documented panic). "
                      "Non-trivial = strings with at least one token. Module level: %d layout plans drawn by TLC's simulation of Relayout.tla "
-                     "(seed) + 8 uniform layouts applied to %d real modules (%d token boundaries): token sequence and resolved model "
-                     "unchanged, every token found at its reported location." % (L, C, len(plans) - 8, rs["modules"], rs["boundaries"]))
+                     "(seed; separators incl. runs of 70 000 blanks / comment characters, so that tokens and string literals start beyond column 65 535) + 8 uniform + 4 wide layouts applied to %d real modules (%d token boundaries): token sequence and resolved model "
+                     "unchanged, every token found at its reported location." % (L, C, len(plans) - 12, rs["modules"], rs["boundaries"]))
     v.cov["samples"] = vlib.sample_ndjson(vec, 4, v.seed, lambda r: len(r["toks"]) > 1) + [{"plan": plans[0][:20]}]
     v.cov["checker_cmd"] = "tlc MC_Lexer (Agree, Relayout, Emit) + sharpness run; replay lexer; tlc -simulate Relayout; replay relayout"
     v.assumptions += ["'--' comments end at the end of the line (the property's quantifier lists only that form; X.680 also ends them at the next '--')",
